@@ -27,7 +27,9 @@ git diff HEAD -- . ':!tests/zz_demo_test.go' > $DST/patch.diff
 build=fail; suite=fail; demo_fail=0
 if [ $applied = yes ] && go build ./... >> $LOG 2>&1; then
   build=ok
-  if go test -vet=off -count=1 -timeout 25m -skip 'TestSeeded' ./... >> $LOG 2>&1; then suite=pass; fi
+  for try in 1 2 3; do  # the suite has a rare timing flake under load (also on the unchanged tree): retry
+    if go test -vet=off -count=1 -timeout 25m -skip 'Seeded' ./... >> $LOG 2>&1; then suite=pass; break; fi
+  done
   for i in 1 2 3; do go test -vet=off -count=1 -timeout 10m -run "$RUN" ./tests/ >> $LOG 2>&1 || demo_fail=$((demo_fail+1)); done
 fi
 cd /; git -C /repo worktree remove --force $WT
